@@ -42,13 +42,13 @@ func RawScan(h *Hub, strict bool) []string {
 		time uint64
 		idx  uint16
 	}
-	versions := map[string]vkey{}      // raw key -> parsed
-	versionAt := map[string]bool{}     // rid|ds|time -> exists
-	greatest := map[string]string{}    // rid|ds -> greatest raw key
-	changeOf := map[string]int{}       // version raw key -> number of change-log entries
-	latest := map[string]string{}      // rid|ds -> raw version key
-	outgoing := map[string]bool{}      // canonical ref tuple
-	incoming := map[string]bool{}      // canonical ref tuple
+	versions := map[string]vkey{}   // raw key -> parsed
+	versionAt := map[string]bool{}  // rid|ds|time -> exists
+	greatest := map[string]string{} // rid|ds -> greatest raw key
+	changeOf := map[string]int{}    // version raw key -> number of change-log entries
+	latest := map[string]string{}   // rid|ds -> raw version key
+	outgoing := map[string]bool{}   // canonical ref tuple
+	incoming := map[string]bool{}   // canonical ref tuple
 	uri2id := map[string]uint64{}
 	id2uri := map[uint64]string{}
 	usedIDs := map[uint64]string{}
